@@ -238,6 +238,20 @@ func (c *callback) Replace(name string, fn func(*DB)) error {
 	c.name = name
 	c.handler = fn
 	c.replace = true
+	// a plain Replace swaps the handler of the registered callback in place: a second entry with the
+	// same name would be sorted on its own, and with Before/After("*") requests the old entry (and its
+	// old handler) ends up behind the new one and wins
+	if c.before == "" && c.after == "" && c.match == nil {
+		for i := len(c.processor.callbacks) - 1; i >= 0; i-- {
+			if v := c.processor.callbacks[i]; v.name == name {
+				if !v.remove {
+					v.handler = fn
+					return c.processor.compile()
+				}
+				break
+			}
+		}
+	}
 	c.processor.callbacks = append(c.processor.callbacks, c)
 	return c.processor.compile()
 }
